@@ -102,6 +102,24 @@ inductive Builtin where
   | fmod
 deriving DecidableEq, Repr
 
+/-- an enumerator operand (`Operand::EnumVariant`): the enumeration it was resolved to -/
+structure EnumUse where
+  /-- `qualified_cxx_name()` of the enumeration's lexical parent (class or namespace) -/
+  parent : Str
+  enumName : Str
+  /-- `enum class` -/
+  isScoped : Bool
+  variant : Str
+deriving Repr, DecidableEq
+
+def scopeSep : Str := "::".toList
+
+/-- `Enum::qualify_cxx_variant_name` (typemap/enum_.rs) = `EnumVariant::cxx_expression()`: a scoped enumerator is
+    qualified with the qualified name of the ENUMERATION, an unscoped one with the enumeration's parent -/
+def qualifyCxxVariantName (u : EnumUse) : Str :=
+  if u.isScoped then u.parent ++ scopeSep ++ u.enumName ++ scopeSep ++ u.variant
+  else u.parent ++ scopeSep ++ u.variant
+
 structure ExprInfo where
   /-- `!is_evaluated_constant()` -/
   dynamic : Bool
@@ -111,6 +129,8 @@ structure ExprInfo where
   uses : List Builtin
   /-- string constants in emission order: (is `ConstantValue::QString`, text) -/
   lits : List (Bool × Str)
+  /-- enumerator operands in emission order -/
+  enums : List EnumUse := []
 deriving Repr
 
 inductive Kind where
@@ -129,6 +149,7 @@ structure Callback where
   signal : Str
   uses : List Builtin
   lits : List (Bool × Str)
+  enums : List EnumUse := []
 deriving Repr
 
 structure Obj where
@@ -276,6 +297,15 @@ def Built.lits (b : Built) : List (Bool × Str) :=
   ((b.bindings.flatMap id).flatMap itemLits ++ b.callbacks.flatMap (fun c => c.2.lits)).map
     (fun l => (l.1, formatStringLiteral l.2))
 
+def itemEnums (it : Item) : List EnumUse :=
+  match it.kind with
+  | .expr i => i.enums
+  | .gadget => []
+
+/-- spelled enumerator operands in header order -/
+def Built.enums (b : Built) : List Str :=
+  ((b.bindings.flatMap id).flatMap itemEnums ++ b.callbacks.flatMap (fun c => c.2.enums)).map qualifyCxxVariantName
+
 /-! ### includes (`collect_system_includes` scans EVERY code body, also those folded to constants) -/
 
 def nodeUses (n : PNode) : List Builtin :=
@@ -406,6 +436,8 @@ inductive ETy where
   /-- `QFlags<Enum>` -/
   | qflags
   | int
+  /-- a scoped enumeration (`enum class`): no implicit conversion to int, no built-in bitwise operators -/
+  | scopedEnum
 deriving DecidableEq, Repr
 
 /-- type of `l op r`; `flagOps` = `Q_DECLARE_OPERATORS_FOR_FLAGS` is in effect for the enumeration -/
@@ -434,16 +466,35 @@ def assignable (target : ETy) (e : ETy) : Bool :=
     and int converts explicitly to the enumeration / to `QFlags` (through `QFlag`) -/
 def castable (_target : ETy) (_e : ETy) : Bool := true
 
-/-- after 17832f1 the result of a bitwise operation with an enumeration operand is wrapped in the two casts;
-    the local has the type of the (first) enumeration operand -/
-def cxxAcceptsBit (flagOps : Bool) (op : BitOp) (l r : ETy) : Bool := castable l (bitResult flagOps op l r)
-def cxxAcceptsBitOld (flagOps : Bool) (op : BitOp) (l r : ETy) : Bool := assignable l (bitResult flagOps op l r)
-def cxxAcceptsNot (a : ETy) : Bool := castable a (notResult a)
-def cxxAcceptsNotOld (a : ETy) : Bool := assignable a (notResult a)
+/-- is the inner expression `l op r` / `~a` itself well-formed?  Scoped enumerations have no bitwise operators
+    ([expr.bit.and] needs integral or unscoped enumeration operands) -/
+def bitOperandOk : ETy → Bool
+  | .scopedEnum => false
+  | _ => true
 
-/-- operands the type checker admits: both of enumeration type (the enum or its flags alias) -/
+/-- after 17832f1 the result of a bitwise operation with an enumeration operand is wrapped in the two casts;
+    the local has the type of the (first) enumeration operand.  The OPERANDS are printed as they are. -/
+def cxxAcceptsBit (flagOps : Bool) (op : BitOp) (l r : ETy) : Bool :=
+  bitOperandOk l && bitOperandOk r && castable l (bitResult flagOps op l r)
+def cxxAcceptsBitOld (flagOps : Bool) (op : BitOp) (l r : ETy) : Bool :=
+  bitOperandOk l && bitOperandOk r && assignable l (bitResult flagOps op l r)
+def cxxAcceptsNot (a : ETy) : Bool := bitOperandOk a && castable a (notResult a)
+def cxxAcceptsNotOld (a : ETy) : Bool := bitOperandOk a && assignable a (notResult a)
+
+/-- candidate repair of F70 (.work/C16.fix-F70.diff): an operand of scoped enumeration type is printed as
+    `static_cast<int>(operand)` -/
+def castScopedOperand : ETy → ETy
+  | .scopedEnum => .int
+  | t => t
+
+def cxxAcceptsBitF70 (flagOps : Bool) (op : BitOp) (l r : ETy) : Bool :=
+  bitOperandOk (castScopedOperand l) && bitOperandOk (castScopedOperand r) &&
+    castable l (bitResult flagOps op (castScopedOperand l) (castScopedOperand r))
+def cxxAcceptsNotF70 (a : ETy) : Bool := bitOperandOk (castScopedOperand a) && castable a (notResult (castScopedOperand a))
+
+/-- operands the type checker admits: of enumeration type (the enum, its flags alias, or a scoped enumeration) -/
 def isEnumOperand : ETy → Bool
-  | .enum | .qflags => true
+  | .enum | .qflags | .scopedEnum => true
   | .int => false
 
 /-! `Math.max` / `Math.min` -/
